@@ -39,6 +39,12 @@ def inst_to_p21(x):
         parts = [("HOLDER", [("list", []), ref(r[0]) if r else N, N, N, N, N])]
     elif ty == "h_sels":
         parts = [("HOLDER", [("list", []), N, ("list", [ref(i) for i in r]), N, N, N])]
+    elif ty == "h2_tl":      # typed select value holding a named aggregate of references
+        parts = [("HOLDER2", [("typed", "LEAF_LIST", ("list", [ref(i) for i in r])), N])]
+    elif ty == "h2_in":      # entity reference through a select nested in a select
+        parts = [("HOLDER2", [ref(r[0]) if r else N, N])]
+    elif ty == "h2_ps":      # aggregate of typed select values, each a named aggregate with one reference
+        parts = [("HOLDER2", [N, ("list", [("typed", "LEAF_LIST", ("list", [ref(i)])) for i in r])])]
     elif ty == "cx":
         parts = [("BASE", [("int", str(v))]), ("PA", [ref(r[0]) if len(r) > 0 else N]),
                  ("PB", [ref(r[1]) if len(r) > 1 else N])]
@@ -103,6 +109,20 @@ def p21_to_inst(d, st=None):
                     raise ValueError
                 return dict(id=d["id"], ty="h_sels", v=0, refs=_refs(a[2][1]), st=s)
             return dict(id=d["id"], ty="h_items", v=0, refs=_refs(items), st=s)
+        if kws == ["HOLDER2"]:
+            a = parts[0][1]
+            if a[0] != ("null",) and a[1] == ("null",):
+                if a[0][0] == "typed" and a[0][1] == "LEAF_LIST" and a[0][2][0] == "list":
+                    return dict(id=d["id"], ty="h2_tl", v=0, refs=_refs(a[0][2][1]), st=s)
+                return dict(id=d["id"], ty="h2_in", v=0, refs=_refs([a[0]]), st=s)
+            if a[0] == ("null",) and a[1][0] == "list":
+                rr = []
+                for x in a[1][1]:
+                    if not (x[0] == "typed" and x[1] == "LEAF_LIST" and x[2][0] == "list" and len(x[2][1]) == 1):
+                        raise ValueError
+                    rr += _refs(x[2][1])
+                return dict(id=d["id"], ty="h2_ps", v=0, refs=rr, st=s)
+            raise ValueError
         if sorted(kws) == ["BASE", "PA", "PB"]:
             m = {k: v for k, v in parts}
             ra, rb = m["PA"][0], m["PB"][0]
